@@ -188,15 +188,16 @@ impl World {
             "SignCp" => {
                 let cc = self.chan(r["ch"].as_str().unwrap());
                 let (off, rcv) = concretize(&r["c"]);
-                let n = self.estate(&cc.channel_id).next_counterparty_commit_num;
-                self.sign_cp(cc, n, off, rcv)?;
-                // the counterparty revokes its previous commitment, so that the next one may be signed
-                if n >= 1 {
-                    let sk = tree_secret(&TREE_A, n - 1);
-                    node.with_channel(&cc.channel_id, |chan| chan.validate_counterparty_revocation(n - 1, &sk))
+                let es = self.estate(&cc.channel_id);
+                let n = es.next_counterparty_commit_num;
+                // the counterparty first revokes the commitment before its current one (it has done so
+                // by the time it asks for a new one); until then the current one may be re-signed
+                if n >= 2 && es.next_counterparty_revoke_num + 2 == n {
+                    let sk = tree_secret(&TREE_A, n - 2);
+                    node.with_channel(&cc.channel_id, |chan| chan.validate_counterparty_revocation(n - 2, &sk))
                         .map_err(|e| Status::internal(format!("harness: revocation refused: {}", e.message())))?;
                 }
-                Ok(json!({}))
+                self.sign_cp(cc, n, off, rcv)
             }
             "SignCpRetry" => {
                 let cc = self.chan(r["ch"].as_str().unwrap());
